@@ -259,6 +259,7 @@ def always(ctx):
                 "%d of %d oracle evaluations violate C11 and are not covered by an open known finding; first: %s (class %s)"
                 % (len(un), len(items), v, c))
     return {"oracle_evaluations": len(items), "oracle_programs_compiled_and_run": nvar,
+            "oracle_traces_compared": bool(c12.LUA["available"]), "oracle_lua_unavailable_reason": c12.LUA["why"],
             "oracle_distribution": dict(dist),
             "oracle_rule": "real compiler (--no-std, external print) + LuaCore run: a program and 2-3 random permutations "
                            "of its top-level statements (single file; multi-file layouts permuted inside every file) -> "
